@@ -204,6 +204,34 @@ func propC12(c *Ctx) {
 					}
 				}
 			}
+			// the counter must count exactly the filters the row builder evaluates: those of
+			// Event.Selected() (which recurses into tuple components) and of Block
+			if good {
+				overSel, overBlock := false, false
+				allInstrs(cal, func(in ssa.Instruction) {
+					b, ok := in.(*ssa.BinOp)
+					if !ok || b.Op != token.ADD {
+						return
+					}
+					if _, isPhi := b.X.(*ssa.Phi); !isPhi {
+						return
+					}
+					if n, ok := constInt(b.Y); !ok || n != 1 {
+						return
+					}
+					for _, col := range loopCollections(b) {
+						if isSelectedOf(col) {
+							overSel = true
+						}
+						if _, ch := fieldChain(col); len(ch) > 0 && ch[len(ch)-1] == w.Field("dig", "Integration", "Block") {
+							overBlock = true
+						}
+					}
+				})
+				if !overSel || !overBlock {
+					good = false
+				}
+			}
 			if good {
 				t, _ := boolEdges(x)
 				aggGuards = append(aggGuards, t...)
@@ -425,6 +453,32 @@ func propC12(c *Ctx) {
 					accT = append(accT, t...)
 				}
 			}
+			// the fold state is fresh for every row: between two rows the filterResults literal is re-initialised
+			row := vs[0].(*ssa.MakeSlice)
+			fresh := true
+			for _, a := range callsToFn(fn, acc) {
+				al, ok := a.Call.Args[0].(*ssa.Alloc)
+				if !ok || !dominatesInstr(a, ap) {
+					continue
+				}
+				cuts := newCuts()
+				for _, ref := range *al.Referrers() {
+					if st, ok := ref.(*ssa.Store); ok && st.Addr == ssa.Value(al) {
+						cuts.addInstr(st)
+					}
+					if fa, ok := ref.(*ssa.FieldAddr); ok {
+						for _, r2 := range *fa.Referrers() {
+							if st, ok := r2.(*ssa.Store); ok && st.Addr == ssa.Value(fa) {
+								cuts.addInstr(st)
+							}
+						}
+					}
+				}
+				if r, _ := reach(siteOf(row), isInstr(row), cuts); r {
+					fresh = false
+				}
+			}
+			c.Check("R12.4", fmt.Sprintf("%s/row-append#%d-fresh-fold-state", fnName(fn), n), ap.Pos(), fresh, "the filterResults accumulator is re-initialised for every row (a verdict of one row must not leak into the next row of the same log)")
 			c.Check("R12.4", fmt.Sprintf("%s/row-append#%d-only-if-accepted", fnName(fn), n), ap.Pos(), len(accT) > 0 && guardedByEdges(fn, ap, accT),
 				"rows = append(rows, row) is reached only when filterResults{kind: ig.filterAGG}.accept() is true")
 		}
